@@ -17,7 +17,7 @@ import (
 // ---------------------------------------------------------------------------
 // C18 (H)+(I): SCAN iteration through the real proxy over scripted per-node cursor chains.
 //
-// alphabet  1..3 nodes; per node a cursor chain of 1..3 steps with cursors from {1, 2, 2^47, 2^48-1};
+// alphabet  0..3 nodes (0: any cursor); per node a cursor chain of 1..3 steps with cursors from {1, 2, 2^47, 2^48-1};
 //           keys spread over the steps; MATCH/COUNT/TYPE argument combinations; client supplied start
 //           cursors from {0, 1, 2^48, 2*2^48+5, 3*2^48, 2^63-1, -1, x, 2^64}
 //           a periodic slot refresh between any two calls of an iteration (2-4 nodes)
@@ -56,6 +56,28 @@ type c18case struct {
 func c18run(cs c18case) (sig, detail string) {
 	body := func() {
 		n := len(cs.Chains)
+		if n == 0 {
+			// no node at all (e.g. before service discovery delivered endpoints): any cursor gets the terminating
+			// reply or an error reply, never a crash
+			p := vfNewProc(vfSvcConfig(0, nil, 0))
+			sched.GoNamed("upstream.Serve", p.u.Serve)
+			sched.WaitQuiescent()
+			s := &vfStack{p: p}
+			c := s.NewClient("c0")
+			start := cs.Start
+			if start == "" {
+				start = "0"
+			}
+			got, err := c.Do("SCAN", start)
+			if err != nil {
+				sig, detail = "connection-failed / no nodes", err.Error()
+				return
+			}
+			if got.Kind != '-' && !resp.Equal(got, resp.Array(resp.BulkS("0"), resp.Array())) {
+				sig, detail = "scan-reply-shape / no nodes", fmt.Sprintf("SCAN %s with no node -> %s", start, got)
+			}
+			return
+		}
 		cl := cluster.New(n, 0, n)
 		want := map[string]bool{}
 		for i, node := range cl.Nodes {
@@ -289,6 +311,9 @@ func c18scan(env sched.Env) *sched.Report {
 		for _, a := range shapes[:6] {
 			try(c18case{Chains: [][]string{a, {"2"}}, Extra: ex})
 		}
+	}
+	for _, st := range []string{"0", "5", "281474976710656", "18446744073709551615"} {
+		try(c18case{Chains: [][]string{}, Start: st})
 	}
 	for _, st := range []string{"0", "1", "281474976710656", "562949953421317", "844424930131968", "9223372036854775807", "-1", "x", "18446744073709551616", ""} {
 		if st == "" {
